@@ -1198,6 +1198,9 @@ func (vx *Vaxis) sendQueries() {
 	// Explicit width query
 	_, _ = vx.tw.WriteString("\x1b[H")
 	_, _ = fmt.Fprintf(vx.tw, explicitWidth, 1, " ")
+	// The cursor position query is written straight to the console: the
+	// probe must reach the terminal before it does
+	_, _ = vx.tw.Flush()
 	_, col := vx.CursorPosition()
 	if col == 1 {
 		log.Debug("[capability] explicit width supported")
